@@ -185,7 +185,7 @@ def file_syms(i):
 def run_partition_obligations(prog, nfiles_list=(2, 3)):
     """-> dict name -> (verdict data) ; each entry: list of counterexample dicts (empty = holds), stats"""
     results = {k: {"cex": [], "paths": 0, "queries": 0, "errors": []} for k in
-               ("no-loss-no-dup", "atomic-subgroups", "patterns", "retention-count", "top-up-order", "stale-filter", "mtime-check")}
+               ("no-loss-no-dup", "atomic-subgroups", "patterns", "retention-count", "top-up-order", "stale-filter", "mtime-check", "subgroup-args")}
     encoded = {}
     glen = z3.BitVec("glen.0", 64)
     no_check = z3.Bool("config*.no_check_size")
@@ -270,6 +270,19 @@ def run_partition_obligations(prog, nfiles_list=(2, 3)):
                     quota = z3.BV2Int(n_eff) - nprot
                     conj.append(is_kept == z3.Or(prot[k], unprot_before < quota))
                 need("top-up-order", z3.And(*conj) if conj else z3.BoolVal(True))
+                # the sub-grouping is asked for with the configuration's own isolate roots, and by file id unless --match-links,
+                # whatever else is configured (the contract used above for FileSubGroup::group presupposes exactly these arguments)
+                ml = z3.Bool("config*.match_links")
+                okargs = []
+                for ev in pp.p.events:
+                    if ev.kind == "call" and ev.callee == "FileSubGroup::group":
+                        st_ = mirsym.State()
+                        st_.mem, st_.pc = pp.p.mem, list(pp.p.pc)
+                        roots_cn = summaries.canon(eng, st_, ev.args[1]) if len(ev.args) > 1 else ""
+                        by_id = ev.args[2] if len(ev.args) > 2 else None
+                        okargs.append(z3.And(z3.BoolVal("config*.isolated_roots" in roots_cn),
+                                             (by_id.t == z3.Not(ml)) if isinstance(by_id, Bool) else z3.BoolVal(False)))
+                need("subgroup-args", z3.And(*okargs) if okargs else z3.BoolVal(False))
                 # C04: with a time limit, the mtime check covered every classified file and found nothing
                 wm = [ev for ev in pp.p.events if ev.kind == "call" and ev.callee == "was_modified"]
                 classified = tuple(sorted("f%d" % i for i in (keep | drop)))
